@@ -200,6 +200,16 @@ def style_space(tier: str, seed: int) -> List[M]:
             row[i] = v
             out.append(M(row))
     out.append(M())
+    # colour-only styles (the domain of Style.from_color) and colour-free styles (the range of without_color)
+    for i, c in enumerate(cols):
+        out.append(M(None, c, None, None))
+        out.append(M(None, None, c, None))
+    for c in SMALL_COLOURS:
+        for b in SMALL_COLOURS:
+            out.append(M(None, c, b, None))
+    for row in rows:
+        for link in LINKS:
+            out.append(M(row, None, None, link))
     # random
     for _ in range(2000 if tier == "quick" else 40000):
         row = [rng.choice((None, None, True, False)) for _ in range(13)]
@@ -219,7 +229,7 @@ def algebra_pool(tier: str, seed: int) -> List[M]:
         row = [None] * 13
         row[i] = (i % 2 == 0)
         pool.append(M(row))
-    target = 44 if tier == "quick" else 110
+    target = 44 if tier == "quick" else 150
     while len(pool) < target:
         row = [rng.choice((None, None, True, False)) for _ in range(13)]
         pool.append(M(row, rng.choice(SMALL_COLOURS), rng.choice(SMALL_COLOURS), rng.choice(LINKS)))
